@@ -10,6 +10,26 @@ CHECKS = {
    technique="stateless deviation-bounded exhaustive exploration (prefix-replay DFS) of the real tracer over a simulated socket, ground-truth oracle",
    text="All executions of the real Builder->Tracer->Strategy->Channel<SimSocket>->codec->State stack with <= d deviations (delay, reorder, duplicate, loss) from the ideal network, for all 56 configuration cells x 8 topologies x first-ttl{1,2}; every published slot is compared with the simulator's ground-truth log (who answered which datagram when) and snapshot totals with the sums of published outcomes.",
    note=ASSUME_SIM, ref="3/C01"),
+ "C04": dict(cat="exploration", engine="E5+E2",
+   technique="bounded-exhaustive structure-aware sweeps of the real receive path (Channel<SimSocket>::recv_probe inside a real Strategy::run) and of every packet-view accessor, panics (incl. overflow/debug assertions) captured",
+   text="Layer A: every accessor/iterator/Debug of all 19 packet views over swept buffers (every value of each length-bearing field x buffer lengths). Layer B: ~4e8 (quick) datagrams built from the probe the real dispatch emitted - every structural octet x all 256 values x received lengths, 16-bit fields x boundary sets (all 2^16 in thorough), truncation/padding at every length, small-alphabet strings at header starts - through the real receive path and strategy conversion for 18 configurations. Oracle: no panic of any kind, no looping.",
+   note="harness build enables overflow checks and debug assertions for the trippy crates (DESIGN.md 2, 5.1); an Err value is allowed; " + ASSUME_SIM, ref="3/C04"),
+ "C11": dict(cat="exploration", engine="E5+E2",
+   technique="exhaustive per-dimension enumeration of configurations; probes issued by the real strategy, every datagram decoded by an independent RFC codec",
+   text="All 56 cells: every packet size min..1024, every ttl 1..254, tos sweeps, payload patterns, boundary initial sequences, illegal sizes; each datagram handed to the simulated socket is decoded with the harness's own RFC decoder and compared with the configuration and with the strategy's own probe record.",
+   note=ASSUME_SIM + "; TCP SYN segments are kernel-built (only socket options/addresses checked); zero Paris checksum over IPv6 is an observation (DESIGN.md 5.13)", ref="3/C11"),
+ "C12": dict(cat="exploration", engine="E5",
+   technique="exhaustive field x value x background enumeration against a hand-written RFC bit-position table",
+   text="88 header fields of all packet types: full argument domain for <=16-bit (20-bit in thorough) arguments, one-hot/one-cold/two-hot/boundary patterns for wider ones, over stripe backgrounds (+ every one-hot/one-cold header bit in thorough); whole-buffer comparison with the RFC-positioned expectation; constructor minimum sizes.",
+   note="RFC field table in harness/vcore/src/pkt.rs is trusted", ref="3/C12"),
+ "C13": dict(cat="exploration", engine="E5+E2",
+   technique="exhaustive enumeration of lengths/contents/address pairs against an RFC 1071 reference; all 2^16 Paris sequences through the real dispatch code",
+   text="6 public checksum functions x every message length up to 1024 x carry-maximising and positional contents x 3 address pairs, compared with a 64-bit accumulate-then-fold reference and re-verified after insertion; Paris: all 65536 sequences x {v4,v6} x 3 port pairs through real Channel dispatch, checksum field == sequence and datagram verifies.",
+   note="domain: whole messages (>= header size), DESIGN.md 5.10; " + ASSUME_SIM, ref="3/C13"),
+ "C14": dict(cat="exploration", engine="E5+E2",
+   technique="exhaustive enumeration of a grammar of RFC 4884/4950 messages through the real receive path and packet views, plus systematic corruptions",
+   text="{v4,v6} x {TE,DU} x parse modes x protocols x {compliant, legacy} x every RFC 4884 length attribute value that fits x all object lists up to length 2 (3 thorough) over 7 object shapes: views must return the original datagram and extension byte-exactly and recv_probe exactly the encoded objects; corruptions (every truncation, every value of every length octet): no panic, termination, containment and non-overlap by pointer arithmetic.",
+   note="conformant MPLS stacks have >=1 member, S=1 on the last only; " + ASSUME_SIM, ref="3/C14"),
 }
 
 NOT_YET = {
